@@ -28,7 +28,7 @@ class TabularProblem(Problem):
         self._inv = jnp.array(inv)
         self._identity_order = bool((sperm == np.arange(S)).all())
         self._nxt = jnp.array(t["nxt"], dtype=jnp.int32)
-        self._rew = jnp.array(t["rew"])
+        self._rew = jnp.array(t["rew"], dtype=jnp.int32) if t.get("intrew") else jnp.array(t["rew"])
         self._prob = jnp.array(t["prob"])
         self._init = None if t.get("init") is None else jnp.array(t["init"])
         self._ipol = None if t.get("ipol") is None else jnp.array(t["ipol"], dtype=jnp.int32)
